@@ -24,6 +24,8 @@ pub trait Hooks {
 
 pub const INJECTED: &str = "verif-injected-fault";
 pub const RUNAWAY: &str = "verif-runaway";
+/// panic of user code that is unrelated to the iterator (Op::UnwindPull)
+pub const USER_PANIC: &str = "verif-user-panic";
 
 pub struct Env {
     pub hooks: Cell<Option<*const dyn Hooks>>,
